@@ -66,8 +66,14 @@ def run_case(wire, op, plan, cap, before=()):
         return replies.pop(0) if replies else None
     # configuration: a third of the (reply, operation) pairs run with the client's debug flag on -- the same value
     # for every segmentation of one pair, so that outcomes stay comparable
-    dbg = zlib.crc32(wire + op.encode()) % 3 == 0
+    h = zlib.crc32(wire + op.encode())
+    dbg = h % 3 == 0
     c, s = M.connected_client(server, plan=plan, cap=cap, debug=dbg)
+    # ... and two fifths with a small Client.read_size (a documented class attribute), so that replies whose length
+    # is an exact multiple of it, or that end exactly at a block boundary, occur in every family
+    rs = (None, 16, None, 7, None)[(h // 3) % 5]
+    if rs:
+        c.read_size = rs
     with contextlib.redirect_stdout(io.StringIO()):
         return _run_case(M, c, s, op, before)
 
